@@ -32,6 +32,8 @@ func execLine(line string) string {
 			return execGen(t[1:])
 		case "build":
 			return execBuild(t[1:])
+		case "text":
+			return execText(t[1:])
 		case "frame":
 			return execFrame(t[1:])
 		case "read":
@@ -58,6 +60,7 @@ var generators = map[string]func(rec *lib.Rec, r *lib.Rng, thorough bool){
 	"C03": genC03,
 	"C17": genC17,
 	"C18": genC18,
+	"C20": genC20,
 	"GEN": func(rec *lib.Rec, r *lib.Rng, thorough bool) {
 		genTranslatorStream(rec, r, map[bool]int{false: 2000, true: 100000}[thorough], nil)
 	},
